@@ -60,8 +60,11 @@ def aggregate(obls):
     return out
 
 
-def verify_contract(reg, c, timeout_ms=10000, feas_timeout_ms=2000, canary=True):
+def verify_contract(reg, c, timeout_ms=10000, feas_timeout_ms=2000, canary=True, strict=False):
+    """strict=True: verify without the contract's `domain` clauses (the part of
+    the input space where the code is known to deviate is then included)."""
     res = FunctionResult(c)
+    c.vname = c.short + ('::strict' if strict else '')
     t0 = time.time()
     try:
         mod, owner, raw, func = resolve(c.target)
@@ -112,20 +115,19 @@ def verify_contract(reg, c, timeout_ms=10000, feas_timeout_ms=2000, canary=True)
                 eng.watch(name, v.t)
         if isinstance(raw, classmethod) and params and params[0] not in env:
             env[params[0]] = const(owner)
-        fr = Frame(func, func.__globals__, env, qualname=c.short, contract=c, cls=owner)
+        fr = Frame(func, func.__globals__, env, qualname=c.vname, contract=c, cls=owner)
         fr.self_name = params[0] if is_method and params else None
         fr.param_names = tuple(params)
         eng.frames.append(fr)
         penv = dict(env)
         # requires
         eng.old = ({}, penv)
-        for rq in c.requires:
+        for rq in c.requires + ([] if strict else c.domain):
             p.assume(eng.eval_clause(rq, env=penv, contract=c))
-        for ginit_name, ginit in c.ghost.items():
-            pass
         if p.check() == z3.unsat:
             raise Infeasible()
         reach['requires_sat'] = True
+        watch_fields(eng, env)
         old_heap = p.heap_snapshot()
         eng.old = (old_heap, penv)
         eng.loop_old_env = penv
@@ -145,7 +147,7 @@ def verify_contract(reg, c, timeout_ms=10000, feas_timeout_ms=2000, canary=True)
             # declared exceptional conditions must not hold on a normal return
             for exc, cond in c.raises.items():
                 t = eng.spec_old_clause(cond, penv, c)
-                eng.prove(f'{c.short}::raises[{exc}](not raised)', z3.Not(t), line=line)
+                eng.prove(f'{c.vname}::raises[{exc}](not raised)', z3.Not(t), line=line)
             env2 = dict(penv)
             rk = c.sorts.get('result')
             if rk is not None and rk != 'none':
@@ -154,12 +156,16 @@ def verify_contract(reg, c, timeout_ms=10000, feas_timeout_ms=2000, canary=True)
                     try:
                         result = SV(want, eng.coerce(result, want))
                     except Unsupported:
-                        eng.prove(f'{c.short}::result-kind', z3.BoolVal(False), line=line)
+                        eng.prove(f'{c.vname}::result-kind', z3.BoolVal(False), line=line)
                         raise Unsupported(f'result kind {result.kind} is not {want}')
             env2['result'] = result
             for name, en in c.ensures.items():
-                t = eng.eval_clause(en, env=env2, contract=c)
-                eng.prove(f'{c.short}::ensures[{name}]', t, line=line)
+                eng.skolems = []
+                t = eng.eval_clause(en, env=env2, contract=c, polarity=1)
+                for sn, sx in eng.skolems:
+                    eng.watch('skolem:' + sn, sx)
+                eng.prove(f'{c.vname}::ensures[{name}]', t, line=line)
+                eng.skolems = None
                 reach.setdefault('ensures', set()).add(name)
             check_frame(eng, c, old_heap, penv, line)
             if canary and not seen_canary[0]:
@@ -173,6 +179,10 @@ def verify_contract(reg, c, timeout_ms=10000, feas_timeout_ms=2000, canary=True)
             ex = outcome
             eng.frames[:] = [fr]
             name = ex.cls.__name__
+            if c.returns_when:
+                ts = [eng.spec_old_clause(w, penv, c) for w in c.returns_when]
+                eng.prove(f'{c.vname}::returns-normally-when-supported[{name}]',
+                          z3.Not(z3.And(*ts)), line=line)
             declared = None
             for exc in c.raises:
                 if issubclass(ex.cls, eng.exc_class(exc, c)):
@@ -180,11 +190,11 @@ def verify_contract(reg, c, timeout_ms=10000, feas_timeout_ms=2000, canary=True)
                     break
             if declared is not None:
                 t = eng.spec_old_clause(c.raises[declared], penv, c)
-                eng.prove(f'{c.short}::raises[{declared}](only when)', t, line=line)
+                eng.prove(f'{c.vname}::raises[{declared}](only when)', t, line=line)
             elif any(issubclass(ex.cls, eng.exc_class(x, c)) for x in c.may_raise):
                 pass
             else:
-                eng.prove(f'{c.short}::no-unexpected-exception[{name}]', z3.BoolVal(False), line=line)
+                eng.prove(f'{c.vname}::no-unexpected-exception[{name}]', z3.BoolVal(False), line=line)
             # exceptional exits still respect the frame unless stated otherwise
         return p
 
@@ -249,6 +259,49 @@ def verify_contract(reg, c, timeout_ms=10000, feas_timeout_ms=2000, canary=True)
     return res
 
 
+def watch_fields(eng, env, depth=2):
+    """Make the pre-state fields of object parameters visible in counter-models."""
+    from . import pymodel as pm
+
+    def visit(prefix, v, d):
+        k = v.kind
+        if k.name == 'opt':
+            os_ = sort_of(k)
+            eng.watch(prefix + ' is None', os_.is_none(v.t))
+            v = SV(k.args[0], os_.val(v.t))
+            k = v.kind
+        if k == STR:
+            eng.watch(prefix, v.t)
+            eng.watch(f'int({prefix})', pm.pyint_str(v.t))
+            eng.watch(f"int({prefix}.replace('P',''))",
+                      pm.pyint_str(pm.str_replace(eng.p, v.t, z3.StringVal('P'), z3.StringVal(''))))
+        elif k in (INT, BOOL, FLOAT):
+            eng.watch(prefix, v.t)
+        elif k.is_obj and d > 0:
+            seen, todo, fields = set(), [k.name], {}
+            while todo:
+                cn = todo.pop()
+                if cn in seen or cn not in eng.reg.schemas:
+                    continue
+                seen.add(cn)
+                for a, ks in eng.reg.schemas[cn].fields.items():
+                    fields.setdefault(a, ks)
+                todo.extend(eng.reg.schemas[cn].bases)
+            for a in fields:
+                try:
+                    fk = eng.field_kind(k.name, a)
+                    arr = eng.field_arr(a, fk)
+                    visit(f'{prefix}.{a}', SV(fk, z3.Select(arr, v.t)), d - 1)
+                except Unsupported:
+                    pass
+        elif k.is_list:
+            eng.watch(f'len({prefix})', z3.Select(eng.len_arr(), v.t))
+    for n, v in env.items():
+        if v.kind == CONST or v.kind.name == 'pytuple' or v.t is None:
+            continue
+        visit(n, v, depth)
+
+
 def check_frame(eng, c, old_heap, penv, line):
     """Every heap location below the initial allocation frontier that differs
     from the pre-state must be covered by the contract's modifies clause."""
@@ -267,4 +320,4 @@ def check_frame(eng, c, old_heap, penv, line):
         r = z3.Int('r!fr')
         cond = [r >= 1, r < p.next0] + [r != a for a in allowed]
         goal = z3.ForAll([r], z3.Implies(z3.And(*cond), z3.Select(arr, r) == z3.Select(old, r)))
-        eng.prove(f'{c.short}::frame[{key}]', goal, line=line)
+        eng.prove(f'{c.vname}::frame[{key}]', goal, line=line)
